@@ -335,6 +335,17 @@ pub fn build_log(root: &Path, kinds: &[TxKind], variant: u8, publish_manifest: b
         out.synced_at_ack.push(
             syncspy::synced_len(&events, &seg_canon).or_else(|| syncspy::synced_len(&events, &seg_path)),
         );
+        // acknowledged ⇒ recoverable from the directory as it is right now
+        match warp_core::causal_wal::recover_filesystem_store(root, warp_core::causal_wal::RecoveryAccessMode::ReadOnly) {
+            Ok(rep) if rep.transactions.len() == i + 1 && rep.transactions[i].commit == tx.commit && rep.transactions[i].frames == tx.frames => {}
+            Ok(rep) => {
+                return Err(format!(
+                    "ACK-VIOLATION: append_transaction {i} returned Ok but the directory recovers {} committed transaction(s)",
+                    rep.transactions.len()
+                ))
+            }
+            Err(e) => return Err(format!("ACK-VIOLATION: append_transaction {i} returned Ok but the directory does not recover: {e:?}")),
+        }
         chain = chain.after(&tx);
         out.ends.push(read(&seg_path)?.len());
         out.ledgers.push(read(&root.join(LEDGER_FILE))?);
